@@ -2,6 +2,7 @@ import NodisVerif.Proofs.C20Finds
 import NodisVerif.Proofs.C20Keys
 import NodisVerif.Proofs.C20ZStoreEx
 import NodisVerif.Proofs.ProtoWireMsg
+import NodisVerif.Model.FeedWire
 /-
   C20 — The change feed replays on a replica.
 
@@ -539,5 +540,97 @@ theorem decode_tolerant_examples :
   decide +kernel
 
 end Wire
+
+/-! ### the feed through the wire (`Model/FeedWire.lean`)
+
+  `Feed.viaWire` = a feed record as the typed `patch.Op`, `Op.Encode`d to bytes on the primary, `DecodeOp`ed
+  on the replica, rendered again.  `Feed.wireNormal` (decidable; evaluated by the driver for every record a
+  `replicate` line ships, on every run: a record that is not normal makes the model print WIRE-NOT-NORMAL and
+  the run fail): the record's typed form is well-formed (`Op.wf`: UTF-8 names, int64 range) and the record is
+  the canonical text of its typed form.  Under it the wire is the identity, so the replay theorems, which
+  apply records "through their textual fields", hold verbatim for records that went through the bytes. -/
+
+section FeedWire
+open NodisVerif.ProtoWire NodisVerif.Proofs.ProtoWire
+
+/-- a normal record arrives as itself -/
+theorem viaWire_normal (op : FeedOp) (h : Feed.wireNormal op = true) : Feed.viaWire op = some op := by
+  unfold Feed.wireNormal at h
+  cases hw : Feed.toWire op with
+  | none => simp [hw] at h
+  | some w =>
+    simp only [hw, Bool.and_eq_true] at h
+    obtain ⟨hwf, hf⟩ := h
+    cases hfw : Feed.fromWire w with
+    | none => simp [hfw] at hf
+    | some op' =>
+      simp only [hfw, Bool.and_eq_true, beq_iff_eq] at hf
+      obtain ⟨⟨h1, h2⟩, h3⟩ := hf
+      have e : op' = op := by
+        cases op'; cases op
+        simp only at h1 h2 h3
+        subst h1; subst h2; subst h3; rfl
+      simp only [Feed.viaWire, hw, Option.bind_some, Feed.throughWire, Proofs.ProtoWire.decodeOp_encodeOp hwf,
+        hfw, e]
+
+/-- a batch of normal records arrives as itself, hence the replica that applies what arrived ends where
+    the replica that applies the emitted records ends -/
+theorem replicate_through_wire (ops : List FeedOp) (h : ∀ op ∈ ops, Feed.wireNormal op = true) :
+    ops.mapM Feed.viaWire = some ops ∧
+    ∀ (r : MState) (now : Int), (ops.mapM Feed.viaWire).bind (Feed.applyAll r now) = Feed.applyAll r now ops := by
+  have hm : ops.mapM Feed.viaWire = some ops := by
+    induction ops with
+    | nil => rfl
+    | cons op rest ih =>
+      rw [List.mapM_cons, viaWire_normal op (h op (List.mem_cons_self ..)),
+        ih (fun o ho => h o (List.mem_cons_of_mem _ ho))]
+      rfl
+  exact ⟨hm, fun r now => by rw [hm]; rfl⟩
+
+/-- the main theorem through the bytes: the records of a covered call, Encoded, Decoded and then applied,
+    bring the replica to the primary's logical keyspace — provided they are normal (checked on every
+    shipped record of every run) -/
+theorem replay_call_through_wire_partial (c : Call) (hwf : c.WF) {now : Int} {p r : MState} (hs : Same now p r)
+    (hl : p.listeners = true) (hfd : p.feed = []) (hreg : ¬ c.Region (lookup p now))
+    (hn : ∀ op ∈ Feed.emission c.info (c.run p now).2 (c.run p now).1.feed.reverse, Feed.wireNormal op = true) :
+    ∃ r', ((Feed.emission c.info (c.run p now).2 (c.run p now).1.feed.reverse).mapM Feed.viaWire).bind
+        (Feed.applyAll r now) = some r' ∧ Same now (c.run p now).1 r' := by
+  rw [(replicate_through_wire _ hn).2 r now]
+  exact replay_call_partial c hwf hs hl hfd hreg
+
+/-- the hypothesis is satisfiable and decided by evaluation: a SET with a deadline, a ZREMRANGEBYSCORE and a
+    ZUNIONSTORE record are normal; a record naming a key that is not UTF-8 is not, and does not arrive (A-200) -/
+example :
+    Feed.wireNormal { typ := 25, key := [107], args := [Bytes.toHex [118], toString false, toString (1700000000000 : Int)] } = true ∧
+    Feed.wireNormal { typ := 31, key := [122], args := [toString (4607182418800017408 : F64), toString (4611686018427387904 : F64), toString (0 : Int)] } = true ∧
+    Feed.wireNormal { typ := 34, key := [100], args := [Bytes.toHex [115, 117, 109], Bytes.toHex [97], Bytes.toHex [98], "|", toString (4607182418800017408 : F64), toString (0 : F64)] } = true ∧
+    Feed.wireNormal { typ := 25, key := [0xff], args := [Bytes.toHex [118], toString false, toString (0 : Int)] } = false ∧
+    Feed.viaWire { typ := 25, key := [0xff], args := [Bytes.toHex [118], toString false, toString (0 : Int)] } = none := by
+  have h25 : schemaOf 25 = some [(1, .str), (2, .bytes), (3, .bool), (4, .int64)] := by decide
+  have h31 : schemaOf 31 = some [(1, .str), (2, .int64), (3, .double), (4, .double)] := by decide
+  have h34 : schemaOf 34 = some [(1, .str), (2, .repStr), (3, .repDouble), (4, .str)] := by decide
+  refine ⟨?_, ?_, ?_, ?_, ?_⟩
+  · simp only [Feed.wireNormal, Feed.toWire, h25, Feed.argsToVals, pB_toHex, pT_toString, pI_toString, List.drop]
+    decide +kernel
+  · simp only [Feed.wireNormal, Feed.toWire, h31, pF_toString, pI_toString]
+    decide +kernel
+  · have hk : (["61", "62", "|", "4607182418800017408", "0"] : List String).takeWhile (· ≠ "|") = ["61", "62"] := by decide
+    have hd : (["61", "62", "|", "4607182418800017408", "0"] : List String).dropWhile (· ≠ "|") = ["|", "4607182418800017408", "0"] := by decide
+    have e1 : Bytes.toHex [97] = "61" := by decide
+    have e2 : Bytes.toHex [98] = "62" := by decide
+    have e3 : toString (4607182418800017408 : F64) = "4607182418800017408" := by decide
+    have e4 : toString (0 : F64) = "0" := by decide
+    have p1 : Feed.pB "61" = some [97] := e1 ▸ pB_toHex [97]
+    have p2 : Feed.pB "62" = some [98] := e2 ▸ pB_toHex [98]
+    have p3 : Feed.pF "4607182418800017408" = some 4607182418800017408 := e3 ▸ pF_toString _
+    have p4 : Feed.pF "0" = some 0 := e4 ▸ pF_toString _
+    simp only [Feed.wireNormal, Feed.toWire, h34, e1, e2, e3, e4, hk, hd, List.drop, List.mapM_cons, List.mapM_nil, p1, p2, p3, p4, pB_toHex]
+    decide +kernel
+  · simp only [Feed.wireNormal, Feed.toWire, h25, Feed.argsToVals, pB_toHex, pT_toString, pI_toString, List.drop]
+    decide +kernel
+  · simp only [Feed.viaWire, Feed.toWire, h25, Feed.argsToVals, pB_toHex, pT_toString, pI_toString, List.drop]
+    decide +kernel
+
+end FeedWire
 
 end NodisVerif.C20
